@@ -88,57 +88,82 @@ pub(crate) fn recurse_objects_with_depth<'o>(
     recurse_objects_with_depth_inner(objects, f, 0)
 }
 
+/// Find the lowest and the highest address that the objects selected by the filter can end up on,
+/// taking all repeats of the objects and of the blocks around them into account.
+/// Refs are followed to their targets, so they count with everything they don't override and
+/// the contents of a reffed block count at the place of the ref too.
 pub(crate) fn find_min_max_addresses(
     objects: &[Object],
     filter: impl Fn(&Object) -> bool,
-) -> (i64, i64) {
-    let mut min_address_found = 0;
-    let mut max_address_found = 0;
+) -> (i128, i128) {
+    let mut min_max_addresses_found = (0, 0);
 
-    let mut last_depth = 0;
-    let mut address_offsets = vec![0];
+    collect_min_max_addresses(
+        objects,
+        objects,
+        &filter,
+        (0, 0),
+        &mut min_max_addresses_found,
+    );
 
-    recurse_objects_with_depth(objects, &mut |object, depth| {
-        while depth < last_depth {
-            address_offsets.pop();
-            last_depth -= 1;
-        }
+    min_max_addresses_found
+}
 
-        if !filter(object) {
-            return Ok(());
-        }
+fn collect_min_max_addresses(
+    device_objects: &[Object],
+    objects: &[Object],
+    filter: &impl Fn(&Object) -> bool,
+    (min_block_address, max_block_address): (i128, i128),
+    min_max_addresses_found: &mut (i128, i128),
+) {
+    for object in objects {
+        // A ref is its target with the overrides applied
+        let ref_target = match object {
+            Object::Ref(ref_object) => {
+                search_object(ref_object.object_override.name(), device_objects)
+            }
+            _ => None,
+        };
 
-        if let Some(address) = object.address() {
-            let repeat = object.repeat().unwrap_or(Repeat {
+        let Some(address) = object
+            .address()
+            .or_else(|| ref_target.and_then(|target| target.address()))
+        else {
+            continue;
+        };
+        let repeat = object
+            .repeat()
+            .or_else(|| ref_target.and_then(|target| target.repeat()))
+            .unwrap_or(Repeat {
                 count: 1,
                 stride: 0,
             });
 
-            let total_address_offsets = address_offsets.iter().sum::<i64>();
+        let last_repeat_offset = repeat.count.saturating_sub(1) as i128 * repeat.stride as i128;
+        let min_address = min_block_address + address as i128 + last_repeat_offset.min(0);
+        let max_address = max_block_address + address as i128 + last_repeat_offset.max(0);
 
-            let count_0_address = total_address_offsets + address;
-            let count_max_address =
-                count_0_address + (repeat.count.saturating_sub(1) as i64 * repeat.stride);
-
-            min_address_found = min_address_found
-                .min(count_0_address)
-                .min(count_max_address);
-            max_address_found = max_address_found
-                .max(count_0_address)
-                .max(count_max_address);
+        if filter(object) {
+            min_max_addresses_found.0 = min_max_addresses_found.0.min(min_address);
+            min_max_addresses_found.1 = min_max_addresses_found.1.max(max_address);
         }
 
-        if let Object::Block(b) = object {
-            // Push an offset because the next objects are gonna be deeper
-            address_offsets.push(b.address_offset);
-            last_depth += 1;
+        let block_objects = match (object, ref_target) {
+            (Object::Block(block), _) => Some(&block.objects),
+            (Object::Ref(_), Some(Object::Block(target_block))) => Some(&target_block.objects),
+            _ => None,
+        };
+
+        if let Some(block_objects) = block_objects {
+            collect_min_max_addresses(
+                device_objects,
+                block_objects,
+                filter,
+                (min_address, max_address),
+                min_max_addresses_found,
+            );
         }
-
-        Ok(())
-    })
-    .unwrap();
-
-    (min_address_found, max_address_found)
+    }
 }
 
 pub(crate) fn search_object<'d>(name: &str, objects: &'d [Object]) -> Option<&'d Object> {
